@@ -1,5 +1,6 @@
 From GV Require Import Base.Grammar LR.Automaton Repair.Semantics Repair.Spec Repair.Proofs Repair.Continue Repair.Search Repair.Confluent Repair.Example.
 
+From GV Require Import Base.Grammar LR.Automaton LR.Validator LR.Spec Repair.Semantics Repair.Spec Repair.Search Repair.Confluent Repair.ConfluentSpec Repair.ConfluentValidated.
 Theorem C05_valid_repair_progress : valid_repair_progress_stmt.
 Proof. exact valid_repair_progress. Qed.
 Print Assumptions C05_valid_repair_progress.
@@ -47,3 +48,37 @@ Print Assumptions C05_search_sound_confluent.
 Theorem C05_row_uniform_confluent : row_uniform_confluent_stmt.
 Proof. exact row_uniform_confluent'. Qed.
 Print Assumptions C05_row_uniform_confluent.
+
+(* validated conflict-free tables ARE reduce-confluent (on graph stacks, in-range tokens, enough fuel), hence on them every
+   sequence the search's move semantics produces is a valid repair *)
+Theorem C05_validated_reduce_step : validated_reduce_step_stmt.
+Proof. exact validated_reduce_step. Qed.
+Print Assumptions C05_validated_reduce_step.
+
+(* validated tables (validS, validC, validE, productive grammar) are reduce-confluent on graph
+   stacks, for tokens of the grammar, at every sufficiently large reduction fuel *)
+Theorem C05_validated_reduce_confluent : validated_reduce_confluent_stmt.
+Proof. exact validated_reduce_confluent. Qed.
+Print Assumptions C05_validated_reduce_confluent.
+
+(* ... and at one fuel whenever the replay does not exhaust it *)
+Theorem C05_validated_reduce_confluent_within_fuel : validated_reduce_confluent_within_fuel_stmt.
+Proof. exact validated_reduce_confluent_within_fuel. Qed.
+Print Assumptions C05_validated_reduce_confluent_within_fuel.
+
+(* the stacks the recovery driver hands to the recoverer are graph stacks *)
+Theorem C05_recover_stacks_graph : recover_stacks_graph_stmt.
+Proof. exact recover_stacks_graph. Qed.
+Print Assumptions C05_recover_stacks_graph.
+
+(* search_sound_confluent with the confluence hypothesis discharged *)
+Theorem C05_validated_search_sound : validated_search_sound_stmt.
+Proof. exact validated_search_sound. Qed.
+Print Assumptions C05_validated_search_sound.
+
+Theorem C05_validated_search_sound_within_fuel : validated_search_sound_within_fuel_stmt.
+Proof. exact validated_search_sound_within_fuel. Qed.
+Print Assumptions C05_validated_search_sound_within_fuel.
+
+(* C06 level: the executable mirror of the bucketed search, no confluence hypothesis *)
+
